@@ -13,6 +13,7 @@ EXPLANATION = (
     "R05.4: FDAI totality of the three parse loops (no unwrap on None / explicit panic reachable) over the finite "
     "abstract state (escape, prev_boundary/is_char, tag_str variant, emptiness of text/tags_tmp, input character class)."
 )
+THOROUGH_CONFIGS = [C.NO_TAG, C.MINIMAL]
 NOT_DECIDED = [
     "bounds of str_to_char_pos[pos] stores and the `n_tags - ts.len()` subtraction (numeric)",
     "that accessors/writers/iterators work on the result beyond the shape facts R05.1-R05.3",
@@ -57,8 +58,7 @@ LEN_MODELS.update({
 
 
 def run(chk):
-    w = facts.world("W")
-    chk.configs.add("W")
+    w = C.world_for(chk)
     chk.rule("R05.1", "every Sentence field is killed on every Ok path of update_* and on every path of the reset")
     chk.rule("R05.2", "Err paths of update_* end in the full reset; from_* literals start with empty scores/padding 0/no predictor")
     chk.rule("R05.3", "tags length form == n_tags form * len() at every exit of a function that changes either")
